@@ -211,7 +211,7 @@ def run(ctx):
     model.mc(SPEC, neg, ctx, "DLList_neg", invariants=INVS, properties=PROPS, expect_violation=True)
     g, _ = graphwalk.emit_graph(SPEC, model.cfg_text(consts, view="View", action_constraint="Emit"), ctx, "DLList")
     adapter = ListAdapter(list_module())
-    stats = graphwalk.walk(g, adapter, ctx, "DLList", sig_fn=sig_fn)
+    stats = graphwalk.walk(g, adapter, ctx, "DLList", sig_fn=sig_fn, paths_per_state=2)
     ctx.note("walk %s" % stats)
     ctx.exhaustive = True
     rnd = random.Random(ctx.seed * 7919 + 8)
